@@ -5,4 +5,5 @@ let entries : (string * (byte list -> byte list)) list = [
   "num_model", num_model_line;
   "json_model", json_model_line;
   "render_model", render_model_line;
+  "shape_model", shape_model_line;
 ]
